@@ -196,7 +196,7 @@ def rand_state(rng):
     for _ in range(rng.randrange(3)):
         st = rng.choice([0, 1, 2, 3, 5, 7])
         s[(B.K_LED, rng.choice([0, 1, 2, 3, 254, 255]), rng.choice([0, 1, 2, 3, 255]))] = \
-            [st, rng.choice([0, 0xff, 5, 0xf9]), rng.randrange(256), rng.randrange(1, 7),
+            [st, rng.choice([0, 0xff, 5, 0xf9]), rng.choice([1, 2, 100, 0xf9, rng.randrange(1, 0xfa)]), rng.randrange(1, 7),
              rng.choice([0, 0xff, 7, 0xf9]), rng.randrange(256), rng.randrange(1, 7), rng.randrange(128)]
     if rng.random() < 0.5:
         s[(B.K_LAN, rng.choice([0, 1, 2, 7, 14, 15]), 20)] = [rng.randrange(256), rng.choice([0x80, 0x8f, 0x00, 0x81])]
@@ -248,7 +248,10 @@ def check_call(op, a, out, log):
         if out[0] == 'exc' and out[1] == 'CCError %d' % reply[0]:
             return None
         return ('result', 'BMC answered completion code %#x, the call gave %r' % (reply[0], out[1:]))
-    exp = sp['res'](a, list(reply[1:]))
+    try:
+        exp = sp['res'](a, list(reply[1:]))
+    except (IndexError, KeyError):
+        exp = 'KeyError'          # the stored object is too short to have a meaning (written through the raw setters)
     if isinstance(exp, str) and exp in ('DecodingError', 'KeyError'):
         if out[0] == 'exc':
             return None
